@@ -10,6 +10,8 @@ package main
 // so a query is: prelude + prefix + (assert (not (=> pc goal))).
 
 import (
+	"os"
+	"runtime/debug"
 	"fmt"
 	"go/constant"
 	"go/token"
@@ -197,6 +199,9 @@ type VC struct {
 type unsupported struct{ msg string }
 
 func (vc *VC) unsup(f string, a ...interface{}) {
+	if os.Getenv("VERIF_DEBUG_STACK") != "" {
+		debug.PrintStack()
+	}
 	panic(unsupported{fmt.Sprintf(f, a...)})
 }
 
